@@ -65,13 +65,13 @@ type c34Spec struct {
 }
 
 type c34JSONOp struct {
-	Opcode        json.RawMessage
-	Name          string
-	Args          []string
-	Size          int
-	ArgEnum       []string
-	ArgEnumTypes  []string
-	ArgDetails    []struct {
+	Opcode       json.RawMessage
+	Name         string
+	Args         []string
+	Size         int
+	ArgEnum      []string
+	ArgEnumTypes []string
+	ArgDetails   []struct {
 		Name         string
 		ByteEncoding int
 		Modes        uint64
@@ -137,12 +137,12 @@ func c34LoadSpecs(c *kit.Ctx) map[uint64]*c34Spec {
 		specs[doc.Version] = sp
 	}
 	if len(specs) < 2 {
-		c.Harness("found %d langspec files in %s", len(specs), mustGetwd())
+		c.Harness("found %d langspec files in %s", len(specs), c34Getwd())
 	}
 	return specs
 }
 
-func mustGetwd() string { d, _ := os.Getwd(); return d }
+func c34Getwd() string { d, _ := os.Getwd(); return d }
 
 // ---------------------------------------------------------------------------------------------
 // program construction for one (version, opcode, field value)
@@ -891,11 +891,11 @@ type c34Instr struct {
 // filler instructions (all valid from v1 unless noted), each leaves the stack as it found it
 func c34Fillers(v uint64) []c34Instr {
 	f := []c34Instr{
-		{[]byte{0x23, 0x48}, true},                        // intc_1; pop     (two instructions, see split below)
-		{[]byte{0x21, 0x01}, true},                        // intc 1          (followed by pop)
-		{[]byte{0x33, 0x00, 0x00}, true},                  // gtxn 0 Sender   (followed by pop)
+		{[]byte{0x23, 0x48}, true},                         // intc_1; pop     (two instructions, see split below)
+		{[]byte{0x21, 0x01}, true},                         // intc 1          (followed by pop)
+		{[]byte{0x33, 0x00, 0x00}, true},                   // gtxn 0 Sender   (followed by pop)
 		{[]byte{0x26, 0x01, 0x03, 0xaa, 0x42, 0x88}, true}, // bytecblock with data that looks like opcodes
-		{[]byte{0x34, 0x07}, true},                        // load 7          (followed by pop)
+		{[]byte{0x34, 0x07}, true},                         // load 7          (followed by pop)
 	}
 	if v >= 3 {
 		f = append(f, c34Instr{[]byte{0x81, 0xac, 0x02}, true})             // pushint 300
